@@ -369,6 +369,8 @@ def run_step(d, step):
     elif op == "zoomify":
         cooler.zoomify_cooler([_src_uri(d, r) for r in step["inputs"]], os.path.join(d, step["out"]),
                               step["resolutions"], chunksize=step["chunksize"], nproc=step.get("nproc", 1), **_opts(step))
+    elif op == "binner":
+        run_binner(d, step)
     elif op == "scool":
         bins = _bins(step["widths"])
         cells = {k: _frame(v, False, _count_dtype(step)) for k, v in step["cells"].items()}
@@ -381,6 +383,161 @@ def run_step(d, step):
         create_scool(os.path.join(d, step["out"]), bins, cells, ordered=True, **kw)
     else:
         raise AssertionError(op)
+
+
+def bin_of(blocks, c, p):
+    """id of the bin of chromosome c that contains the zero-based position p"""
+    off = sum(len(b) for b in blocks[:c])
+    for k, (_, s_, e) in enumerate(blocks[c]):
+        if s_ <= p < e:
+            return off + k
+    raise ValueError((c, p))
+
+
+def binner_expected(step):
+    """the counting model of every contact binner: one count per contact in the pixel (bin of side 1, bin of
+    side 2), reflected into the upper triangle; returned sorted by (bin1, bin2)"""
+    blocks = blocks_from_widths(step["widths"])
+    acc = {}
+    for c1, p1, c2, p2 in step["pairs"]:
+        a, b_ = bin_of(blocks, c1, p1), bin_of(blocks, c2, p2)
+        k = (min(a, b_), max(a, b_))
+        acc[k] = acc.get(k, 0) + 1
+    return [[a, b_, v] for (a, b_), v in sorted(acc.items())]
+
+
+def run_binner(d, step):
+    """the contact binners / loaders exported by cooler.create: HDF5Aggregator (hiclib contact list),
+    TabixAggregator, ArrayLoader, the sanitize_records+aggregate_records and sanitize_pixels pipelines fed to
+    create_from_unordered; optionally followed by create.append (extra columns) and rename_chroms"""
+    import cooler
+    from cooler.create import (ArrayLoader, HDF5Aggregator, TabixAggregator, aggregate_records, append, create,
+                               create_cooler, create_from_unordered, rename_chroms, sanitize_pixels, sanitize_records)
+    blocks = blocks_from_widths(step["widths"])
+    names = names_for(len(blocks))
+    bins = table_from_blocks(blocks, categorical=False)
+    cs = pd.Series([blk[-1][2] for blk in blocks], index=names, dtype=np.int64)
+    uri = _uri(d, step)
+    kind = step["kind"]
+    pairs = step["pairs"]
+    tag = step["out"].replace(".", "_")
+
+    def write_h5():
+        path = os.path.join(d, f"pairs_{tag}.h5")
+        with h5py.File(path, "w") as f:
+            for j, nm in enumerate(("chrms1", "cuts1", "chrms2", "cuts2")):
+                f[nm] = np.array([p[j] for p in pairs], dtype=np.int32)
+        return path
+
+    def make(it):
+        if step.get("api") == "create_cooler":
+            create_cooler(uri, bins, it, ordered=True)
+        else:
+            create(uri, bins, it)
+
+    if kind == "hdf5":
+        with h5py.File(write_h5(), "r") as f:
+            make(HDF5Aggregator(f, cs, bins, step["chunksize"]))
+    elif kind == "hiclib_cli":
+        from click.testing import CliRunner
+        from cooler.cli import cli
+        bed = os.path.join(d, f"bins_{tag}.bed")
+        with open(bed, "w") as fh:
+            fh.write("".join(f"{names[c]}\t{s_}\t{e}\n" for blk in blocks for (c, s_, e) in blk))
+        res = CliRunner().invoke(cli, ["cload", "hiclib", "--chunksize", str(step["chunksize"]), bed, write_h5(), uri])
+        if res.exit_code != 0:
+            raise RuntimeError(f"cli exit {res.exit_code}: {res.exception!r}")
+    elif kind == "tabix":
+        import pysam
+        txt = os.path.join(d, f"pairs_{tag}.txt")
+        with open(txt, "w") as fh:
+            for c1, p1, c2, p2 in pairs:
+                fh.write(f"r\t{names[c1]}\t{p1 + 1}\t{names[c2]}\t{p2 + 1}\n")
+        pysam.tabix_compress(txt, txt + ".gz", force=True)
+        pysam.tabix_index(txt + ".gz", seq_col=1, start_col=2, end_col=2, zerobased=False, force=True)
+        make(TabixAggregator(txt + ".gz", cs, bins, n_chunks=step["chunksize"], is_one_based=True))
+    elif kind == "array":
+        n = len(bins)
+        A = np.zeros((n, n), dtype=np.int64)
+        for a, b_, v in binner_expected(step):
+            A[a, b_] = v
+            A[b_, a] = v
+        make(ArrayLoader(bins, A, chunksize=step["chunksize"]))
+    elif kind == "records":
+        order = step["order"]
+        df = pd.DataFrame([(names[pairs[i][0]], pairs[i][1], names[pairs[i][2]], pairs[i][3]) if not fl else
+                           (names[pairs[i][2]], pairs[i][3], names[pairs[i][0]], pairs[i][1])
+                           for i, fl in order], columns=["chrom1", "pos1", "chrom2", "pos2"])
+        sani = sanitize_records(bins, schema="pairs", decode_chroms=True, is_one_based=False, tril_action="reflect",
+                                sort=True, validate=True)
+        aggr = aggregate_records(agg={}, count=True, sort=False)
+        k = step["chunksize"]
+        chunks = [df.iloc[i:i + k].copy() for i in range(0, len(df), k)]
+        create_from_unordered(uri, bins, map(lambda ch: aggr(sani(ch)), chunks), mergebuf=step.get("mergebuf", 3),
+                              max_merge=step.get("max_merge", 200))
+    elif kind == "pixels":
+        exp = binner_expected(step)
+        rows = [(r[1], r[0], r[2]) if fl else tuple(r) for r, fl in zip([exp[i] for i, _ in step["order"]], [f for _, f in step["order"]])]
+        df = pd.DataFrame(rows, columns=["bin1_id", "bin2_id", "count"])
+        sani = sanitize_pixels(bins, is_one_based=False, tril_action="reflect", sort=True)
+        k = step["chunksize"]
+        chunks = [df.iloc[i:i + k].copy() for i in range(0, len(df), k)]
+        create_from_unordered(uri, bins, map(sani, chunks), mergebuf=step.get("mergebuf", 3))
+    else:
+        raise AssertionError(kind)
+    for post in step.get("post", []):
+        if post == "append":
+            nnz = len(cooler.Cooler(uri).pixels())
+            append(uri, "pixels", {"extra": np.arange(nnz, dtype=float)})
+            append(uri, "bins", {"weight": np.ones(len(bins))})
+        elif post == "rename":
+            rename_chroms(cooler.Cooler(uri), {names[0]: "renamed" + names[0]})
+
+
+def gen_binners(rng, thorough=False):
+    """recipes for every contact binner / loader exported by cooler.create.  Tables have >= 2 chromosomes
+    whose lengths are not multiples of the bin size (fixed) or variable widths; contacts fall on every
+    chromosome, several per bin, so that chunk borders of the streaming binners land inside bin1 rows."""
+    tables = [[[5, 5, 3], [5, 5, 5, 5, 1]], [[4, 4, 2], [4, 3], [4, 4, 1]], [[5, 5, 3], [4, 9, 2, 6]],
+              [[2, 7], [3, 3, 8, 1], [6, 2]]]
+    R = []
+
+    def contacts(widths, m):
+        blocks = blocks_from_widths(widths)
+        L = [blk[-1][2] for blk in blocks]
+        out = []
+        for _ in range(m):
+            c1 = rng.choice(list(range(len(L))) + [len(L) - 1])
+            c2 = rng.choice(list(range(len(L))) + [len(L) - 1])
+            p1, p2 = rng.randrange(L[c1]), rng.randrange(L[c2])
+            if (c1, p1) > (c2, p2):
+                c1, p1, c2, p2 = c2, p2, c1, p1
+            out.append([c1, p1, c2, p2])
+        return sorted(out)
+
+    for ti, widths in enumerate(tables):
+        pairs = contacts(widths, rng.randint(35, 60))
+        base = {"op": "binner", "out": "b.cool", "group": "", "widths": widths, "symm": True, "pairs": pairs}
+        for cs_ in list(range(1, 9)) + [1000]:
+            R.append([dict(base, kind="hdf5", chunksize=cs_, api=("create", "create_cooler")[(cs_ + ti) % 2])])
+        R.append([dict(base, kind="hiclib_cli", chunksize=rng.choice([2, 3, 5]))] if (thorough or ti % 2 == 1) else
+                 [dict(base, kind="hdf5", chunksize=rng.randint(9, 20), api="create")])
+        for nch in ((1, 2, 3, 7) if thorough else (1, rng.choice([2, 3, 7]))):
+            R.append([dict(base, kind="tabix", chunksize=nch, api=("create", "create_cooler")[nch % 2])])
+        for cs_ in ((1, 2, 3, 5, 1000) if thorough else (rng.choice([1, 2]), rng.choice([3, 5, 1000]))):
+            R.append([dict(base, kind="array", chunksize=cs_, api=("create", "create_cooler")[cs_ % 2])])
+        if not thorough and ti % 2:
+            continue
+        order = [[i, rng.random() < 0.4] for i in range(len(pairs))]
+        rng.shuffle(order)
+        R.append([dict(base, kind="records", chunksize=rng.choice([1, 4, 9, 1000]), order=order, mergebuf=rng.choice([1, 3, 100]),
+                       max_merge=rng.choice([1, 2, 200]), post=["append", "rename"] if ti % 4 == 0 else [])])
+        nexp = len(binner_expected(base))
+        order = [[i, rng.random() < 0.4] for i in range(nexp)]
+        rng.shuffle(order)
+        R.append([dict(base, kind="pixels", chunksize=rng.choice([1, 3, 1000]), order=order, mergebuf=rng.choice([1, 3, 100]),
+                       post=["append"] if ti % 4 == 2 else [])])
+    return R
 
 
 def run_recipe(d, recipe, limit=120):
@@ -576,7 +733,7 @@ def gen_create_ensure_sorted(rng, out, how, api, symm=None, widths=None, shape=N
             "chunks": chunks, "ensure_sorted": True, "api": api, "disorder": how}
 
 
-def gen_option_grid(rng):
+def gen_option_grid(rng, thorough=True):
     """The full boolean grid boundscheck x triucheck x dupcheck x ensure_sorted x symmetric_upper for every
     producer that takes these options: create() and create_cooler(ordered=True) on an iterator of chunks,
     create_cooler on a frame, create_cooler(ordered=False) with a small merge buffer, create_scool cells.
@@ -587,7 +744,9 @@ def gen_option_grid(rng):
     import itertools
     R = []
     for prod in ("create", "create_cooler_ordered", "frame", "unordered", "scool"):
-        for bc, tc, dc, es, symm in itertools.product([True, False], repeat=5):
+        for gi, (bc, tc, dc, es, symm) in enumerate(itertools.product([True, False], repeat=5)):
+            if not thorough and prod in ("unordered", "scool", "frame") and (gi + bc + tc + dc + es + symm) % 2:
+                continue      # quick tier: a half-fraction of the grid for the costlier / order-insensitive producers
             widths = rand_widths(rng, maxchrom=2, maxbins=4)
             n = nbins_of(widths)
             cells = rand_cells(rng, n, symm, rng.choice(["sparse", "dense", "gaprows", "sparse"]))
@@ -748,7 +907,8 @@ def gen_load(rng, out, group="", append=False):
     names = names_for(len(blocks))
     chunksize = rng.choice([1, 2, 3, 5, 100])
     one_based = rng.random() < 0.3 and fmt == "coo"
-    nlines = rng.randint(0, 3 * n)
+    # every reader chunk becomes a temporary cooler: keep their number small when chunks are tiny
+    nlines = rng.randint(0, min(3 * n, 6 * chunksize + 4))
     lines = []
     cur = set()
     for k in range(nlines):
@@ -812,14 +972,15 @@ def gen_cload(rng, out, group="", append=False):
     zero = rng.random() < 0.4
     symm = rng.random() < 0.8
     lines = []
-    for _ in range(rng.randint(0, 40)):
+    chunksize_ = rng.choice([1, 2, 7, 1000])
+    for _ in range(rng.randint(0, min(40, 6 * chunksize_ + 4))):
         c1, c2 = rng.randrange(nc), rng.randrange(nc)
         lo, hi = (0, -1) if zero else (1, 0)
         p1 = rng.choice([lo, sizes[c1] + hi, rng.randint(lo, sizes[c1] + hi)])
         p2 = rng.choice([lo, sizes[c2] + hi, rng.randint(lo, sizes[c2] + hi)])
         lines.append([names[c1], p1, names[c2], p2])
     return {"op": "cload", "out": out, "group": group, "append": append, "chromsizes": sizes, "binsize": b, "lines": lines,
-            "chunksize": rng.choice([1, 2, 7, 1000]), "zero_based": zero, "symm": symm,
+            "chunksize": chunksize_, "zero_based": zero, "symm": symm,
             "mergebuf": rng.choice([None, 1, 3]), "max_merge": rng.choice([None, 1, 2])}
 
 
